@@ -1909,7 +1909,9 @@ fuzzy_info = {json.dumps(ret)};
             graphLogger.critical("Cycle detected in graph: %s" % edges)
             outRef = edges[0][1]
             inRef = edges[-1][0]
-            raise experiment.model.errors.CircularComponentReferenceError(DataReference(outRef), DataReference(inRef))
+            # VV: The edges contain component identifiers, a DataReference also needs a reference method
+            raise experiment.model.errors.CircularComponentReferenceError(
+                DataReference('%s:%s' % (outRef, DataReference.Ref)), DataReference('%s:%s' % (inRef, DataReference.Ref)))
 
         unresolved = []
         unused = []
